@@ -10,6 +10,7 @@ package c19
 
 import (
 	"bytes"
+	"encoding/json"
 	"fmt"
 	"os"
 	osexec "os/exec"
@@ -27,15 +28,16 @@ type P struct{}
 
 func (P) Rule() string {
 	return "one op sequence per case, executed on every backend that builds here (memdb, goleveldb, bolt, badger; opened through db.NewDB under the run directory) " +
-		"either directly or through a PrefixDB view over a store pre-filled with neighbour keys (prefix-1, prefix, cpIncr(prefix), ...). " +
+		"either directly or through a PrefixDB view over a store pre-filled with neighbour keys (prefix-1, cpDecr(prefix), PrefixToEnd(prefix), fixed-width prefix+1, ...). " +
 		"ops: set/setsync/put, del/delsync/delerr, get/load/has/exist, iter/riter with every bound combination (nil, empty, keys, neighbours), piter (NewIteratorWithPrefix), " +
-		"iterprefix (IteratePrefix), batches (several alive at once; set/del/write/writesync/commit/reset/abandon), reopen (Close + NewDB on the same directory), " +
-		"leaf ops indomain/cpincr/cpdecr/ptoend/ptrans (cpIncr/cpDecr observed through a spy DB that records the bounds PrefixDB/IteratePrefix pass down). " +
+		"iterprefix (IteratePrefix), batches (several alive at once; set/del/write/writesync/commit/reset/abandon, reused after Reset on every backend incl. badger), reopen (Close + NewDB on the same directory), " +
+		"leaf ops indomain/ipbounds/cpdecr/ptoend/ptrans (bounds observed through a spy DB that records what PrefixDB/IteratePrefix pass down), crashprobe (badger batch reuse in a child process). " +
 		"keys: empty, nil, single bytes 00/ff, shared prefixes, 0xff tails, random binary; values NON-EMPTY (1..5000 bytes). " +
 		"generator restrictions (excluded corners, not filtered in the comparison): bolt and badger reject the empty key (bolt: Put error logged and dropped, badger: Set ignored, Delete panics) so cases " +
-		"with empty/nil keys on the store itself run on memdb+goleveldb only (through a PrefixDB view the empty view-key runs on all four); a batch is used on badger only up to its first write/reset " +
-		"(reuse crashes the process, see finding badger-batch-reuse) and a written batch is reset before reuse on all backends; no writes while an iterator is open; " +
-		"empty-but-non-nil reverse start bounds only on memdb+goleveldb+bolt. sharded stream (counts=4): iteration is per shard by design, answers compared as sorted multisets. " +
+		"with empty/nil keys on the store itself run on memdb+goleveldb only (through a PrefixDB view the empty view-key runs on all four); no writes while an iterator is open; " +
+		"a batch written AGAIN without Reset only in cases tagged rewrite (what a batch holds after Write is adapter-specific: memBatch/goleveldb keep the ops, bolt/badger are empty; tied to the per-backend model, " +
+		"the equivalence monitors are off there); if the crashprobe says badger batch reuse kills the process, badger batches are single-use so that the run can report it. " +
+		"sharded stream (counts=4): iteration is per shard by design, answers compared as sorted multisets (duplicates visible). " +
 		"non-trivial = at least one iterator over >= 2 live keys and (a delete of a live key or a written batch or a reopen); distinct = distinct op sequence"
 }
 
@@ -59,9 +61,6 @@ type exec struct {
 }
 
 var (
-	dupNote string            // set by drain when a sharded iteration yields a key twice
-	notes   = map[int]string{} // op index -> note for the monitor (side channel of the case just executed)
-	opIdx   int
 	caseSeq int
 	current *exec // the executor whose stores are open (closed when the next case starts)
 )
@@ -161,17 +160,8 @@ func drain(it dbm.Iterator, sorted bool) string {
 		}
 	}
 	if sorted {
-		// sharded stores iterate shard after shard (by design): compared as a SET; duplicates go to the monitor's side channel
+		// sharded stores iterate shard after shard (by design): compared as a sorted MULTISET (duplicates stay visible)
 		sort.SliceStable(kvs, func(i, j int) bool { return bytes.Compare(kvs[i].k, kvs[j].k) < 0 })
-		out := kvs[:0]
-		for i, x := range kvs {
-			if i > 0 && bytes.Equal(kvs[i-1].k, x.k) {
-				dupNote = fmt.Sprintf("key %x yielded more than once", x.k)
-				continue
-			}
-			out = append(out, x)
-		}
-		kvs = out
 	}
 	if len(kvs) == 0 {
 		return "kv=-"
@@ -221,7 +211,7 @@ func leaf(toks []string) (string, bool) {
 		return fmt.Sprint(dbm.IsKeyInDomain(arg("k"), arg("s"), arg("e"), r == "1")), true
 	case "ptoend":
 		return showB(dbm.PrefixToEnd(arg("p"))), true
-	case "cpincr":
+	case "ipbounds": // the bounds IteratePrefix hands to Iterator (cpIncr has no caller left since b779b6d)
 		sp := &spy{DB: dbm.NewMemDB()}
 		dbm.IteratePrefix(sp, arg("b")).Close()
 		return "s=" + showB(sp.s) + " e=" + showB(sp.e), true
@@ -356,10 +346,8 @@ func (e *exec) Exec(op string) string {
 		return "bad-op"
 	}
 	if toks[0] == "case" {
-		notes, opIdx = map[int]string{}, 0
 		return e.startCase(toks)
 	}
-	opIdx++
 	if toks[0] == "crashprobe" {
 		return crashProbe(toks)
 	}
@@ -376,11 +364,7 @@ func (e *exec) Exec(op string) string {
 		if hasOnly && !strings.Contains(","+only+",", ","+in.name+",") {
 			continue
 		}
-		dupNote = ""
 		a := e.one(in, toks)
-		if dupNote != "" {
-			notes[opIdx] = in.name + ": " + dupNote
-		}
 		if len(answers) > 0 && a != answers[0] {
 			same = false
 		}
@@ -400,20 +384,22 @@ func (e *exec) Exec(op string) string {
 	return strings.Join(parts, "|")
 }
 
-// crashProbe runs a badger batch-reuse sequence in a CHILD process (the panic happens in a goroutine spawned by
-// badgerBatch.Write and cannot be recovered in-process).  Answer: survived | crashed.
+// crashProbe runs a badger batch-reuse sequence in a CHILD process: before 201fd44 the panic happened in a goroutine
+// spawned by badgerBatch.Write and could not be recovered in-process.  Answer: "survived <final iteration>" | "crashed".
 func crashProbe(toks []string) string {
 	mode, _ := hx.Arg(toks, "mode")
 	seq := []string{"case backends=bdg prefix=none", "bnew id=0", "bset id=0 k=01 v=01"}
 	switch mode {
-	case "reset-write": // Reset, refill, Write (what libs/trie/database.go does after every Commit)
+	case "reset-write": // Reset, refill, Write
 		seq = append(seq, "breset id=0", "bset id=0 k=02 v=02", "bwrite id=0")
-	case "write-reset-write":
-		seq = append(seq, "bwrite id=0", "breset id=0", "bset id=0 k=02 v=02", "bcommit id=0")
+	case "write-reset-write": // what libs/trie/database.go does after every Commit
+		seq = append(seq, "bcommit id=0", "breset id=0", "bset id=0 k=02 v=02", "bcommit id=0")
+	case "write-write": // no Reset in between: badger's batch is empty after Write (renew), so the delete below stays
+		seq = append(seq, "bwrite id=0", "del k=01", "bset id=0 k=02 v=02", "bwrite id=0")
 	default:
 		return "bad-op"
 	}
-	seq = append(seq, "get k=02")
+	seq = append(seq, "iter s=nil e=nil")
 	wd, _ := os.Getwd()
 	f := filepath.Join(wd, fmt.Sprintf("crashprobe-%d.txt", os.Getpid()))
 	os.WriteFile(f, []byte(strings.Join(seq, "\n")+"\n"), 0o644)
@@ -421,8 +407,20 @@ func crashProbe(toks []string) string {
 	cmd := osexec.Command(os.Args[0], "C19", "replay", f)
 	cmd.Dir = wd
 	out, err := cmd.Output()
-	if err != nil || !strings.Contains(string(out), "\"impl\"") {
+	if err != nil {
 		return "crashed"
 	}
-	return "survived"
+	var res struct {
+		Impl []string `json:"impl"`
+	}
+	if json.Unmarshal(out, &res) != nil || len(res.Impl) != len(seq) {
+		return "crashed"
+	}
+	return "survived " + strings.TrimPrefix(res.Impl[len(res.Impl)-1], "all:")
+}
+
+// BadgerReuseSafe: does a reused badger batch survive?  (decides whether the generator may reuse badger batches
+// in-process; on a tree without 201fd44 the harness itself would die)
+func badgerReuseSafe() bool {
+	return strings.HasPrefix(crashProbe([]string{"crashprobe", "mode=reset-write"}), "survived")
 }
